@@ -219,10 +219,11 @@ def inProgressAt (w : World) (op : Op) : Option Nat :=
   | .start | .success | .init _ | .restart => none
   | _ => (loadPatchesState w.disk).booting.map (·.number)
 
-/-- The property's second sentence, as far as an observer can judge it: after a single I/O error
-    inside a call (execution continues), what the SAME process selects next must still be a patch
-    recorded before (in a readable state of this release) or the one it was installing, not banned
-    before, and intact. -/
+/-- The property's second sentence, as an observer judges it (the conclusion of `eio_safe_*`): after
+    a single I/O error inside a call (execution continues), what is selected afterwards — by the same
+    process or by the next launch — is intact and is a patch recorded before (in a readable state of
+    this release) or one the process was installing. (This sentence of the property says nothing about
+    bans: an unreadable `patches_state.json` legitimately forgets them.) -/
 def eioChecks (env : Env) (key : Option String) (pre : View) (offers : List Nat) (settledPre : Bool)
     (after : View) (sel : Option Nat) : Checks :=
   match sel with
@@ -230,10 +231,23 @@ def eioChecks (env : Env) (key : Option String) (pre : View) (offers : List Nat)
   | some n =>
     [ (after.nextNum = some n && (match after.ps.next with | some m => after.valid env key m | none => false),
         s!"C04: after an I/O error the process selected patch {n}, which is not an intact selected patch"),
-      (!settledPre || !pre.ps.bad.contains n, s!"C04: after an I/O error the process selected patch {n}, which was banned before"),
       ((slotNums pre).contains n || offers.contains n,
         s!"C04: after an I/O error the process selected patch {n}, which was neither recorded before nor being installed"),
       (settledPre || offers.contains n,
         s!"C04: the state on disk belonged to another release (or was unreadable), yet after an I/O error during its reset the process selected patch {n} from it") ]
+
+def slotMetas (v : View) : List Meta :=
+  (match v.ps.next with | some m => [m] | none => []) ++
+  (match v.ps.last with | some m => [m] | none => []) ++
+  (match v.ps.booting with | some m => [m] | none => [])
+
+/-- The invariant `InvE` of `eio_inv`, evaluated on the state files a faulted process left: if they
+    read as a state of this release, every record is one recorded before (in a readable state of this
+    release) or carries an offered number — or has no artifact. -/
+def eioRecordChecks (version : Option String) (pre : View) (offers : List Nat) (settledPre : Bool) (after : View) : Checks :=
+  if after.release ≠ version then [] else
+  (slotMetas after).map fun m =>
+    ((settledPre && (slotMetas pre).contains m) || offers.contains m.number || (after.art m.number).isNone,
+      s!"C04: after an I/O error the state files record patch {m.number}, which was neither recorded before nor on offer, and its artifact exists")
 
 end Updater
